@@ -673,12 +673,17 @@ M_reduceRight(st, o, args) == M_reduceGen(st, o, args, TRUE)
 (* comparison that puts distinguishable values in a strict order, so the     *)
 (* final state is unique whatever sequence of [[Get]]/[[Put]]/[[Delete]]     *)
 (* calls the implementation chooses.                                         *)
-(* comparators: Undef (default), [t |-> "cmp", k |-> "numasc" | "numdesc"]   *)
+(* comparators: Undef (default), [t |-> "cmp", k |-> "numasc" | "numdesc" |  *)
+(* "parity" ((a%2)-(b%2)) | "zero" (always 0)]; the last two have ties and   *)
+(* are used by the judge only (C08Judge.tla checks the postcondition)        *)
 SortCmp(cmp, x, y) ==       \* SortCompare on two defined values: -1, 0, 1
     IF cmp = Undef
     THEN StrCmp(O!ToStringPrim(x), O!ToStringPrim(y))                            \* steps 14-17
-    ELSE LET d == IF cmp.k = "numasc" THEN NumSub(ToNumberPrim(x), ToNumberPrim(y))
-                  ELSE NumSub(ToNumberPrim(y), ToNumberPrim(x))
+    ELSE IF cmp.k = "zero" THEN 0
+    ELSE LET nx == ToNumberPrim(x)  ny == ToNumberPrim(y)
+             d == CASE cmp.k = "numasc" -> NumSub(nx, ny)
+                    [] cmp.k = "numdesc" -> NumSub(ny, nx)
+                    [] cmp.k = "parity" -> NumSub(NumMod(nx, I(2)), NumMod(ny, I(2)))
          IN  IF IsNaN(d) THEN 0 ELSE NumCmp(d, I(0))
 RECURSIVE InsertSorted(_, _, _)
 InsertSorted(cmp, s, x) ==
